@@ -146,6 +146,9 @@ def install_clock(loop):
     asyncio.set_event_loop(loop)
 
 
+Codec.current_datetime = staticmethod(_vdatetime)      # deterministic SendingTime also without a loop
+
+
 class FakeWriter:
     """Stream writer stand-in.  sink(bytes) receives what is written while the link is up;
     when the link is down writes vanish and drain() raises ConnectionResetError, which is
